@@ -7,7 +7,7 @@ import os
 from report import AnalysisError, VERIF
 from pyfront import (Repo, CFG, canon, guard_literals, attr_accesses, literals,
                      qualname, calls_in, single_defs, TK, _Subst)
-from pyutil import params, deep_subst, find_calls, lit_fmt, rel, name_of
+from pyutil import params, deep_subst, find_calls, lit_fmt, rel, name_of, owners
 from dtable import Walker
 from consteval import Ev, fold, Unknown, Raised
 
@@ -46,7 +46,10 @@ def r1_counter(L, repo):
                     continue
                 n += 1
                 q = qualname(node)
-                ok = q in allowed and not (q == "FakeTRX.sim_burst_drop" and nm == "burst_drop_period")
+                own = owners(m, node)
+                ok = own <= allowed and not ("FakeTRX.sim_burst_drop" in own and nm == "burst_drop_period")
+                if ok and q not in allowed:
+                    q = sorted(own)[0]
                 L.ob("C18.R1", m.rel, q, "writer of %s (%s) `%s`" % (nm, kind, canon(node._parent)[:50]),
                      "only __init__, the FAKE_DROP branches and the decrement in sim_burst_drop", q, ok, node.lineno)
     L.floor("C18.R1", "writers of the drop state", n, 4)
@@ -90,56 +93,48 @@ def r1_counter(L, repo):
 
 
 def r2_fake_drop(L, repo):
+    """R2: FAKE_DROP <AMOUNT> [<PERIOD>]: a valid command answers 0 and sets (amount, period) (period 1 when omitted);
+    a negative amount or a non-positive period answers -1 and leaves the drop state unchanged. Decided by folding the
+    WHOLE command handler (helpers included, verify_cmd evaluated from ctrl_if's source) for boundary witnesses of
+    both forms: whatever way the branches are written, the status and the resulting state are compared."""
     ci, fd = repo.need_method("fake_trx", "FakeTRX", "ctrl_cmd_handler")
     fn = "FakeTRX.ctrl_cmd_handler"
     L.fn(F, fn)
     REQ = params(fd)[1]
-    found = {}
-    for n in ast.walk(fd):
-        if not isinstance(n, ast.If):
-            continue
-        for (t, p) in literals(n.test, True):
-            if p and t.startswith("self.ctrl_if.verify_cmd(%s, 'FAKE_DROP', " % REQ):
-                argc = t[len("self.ctrl_if.verify_cmd(%s, 'FAKE_DROP', " % REQ):].rstrip(")")
-                found[argc] = n
-    L.require("C18.R2", F, fn, "FAKE_DROP forms handled (argument counts)", ["1", "2"], sorted(found))
     ci0 = repo.need_class("fake_trx", "FakeTRX")
     mod = repo.mod("fake_trx")
-    for argc, br in sorted(found.items()):
-        # the branch is comparison-only code over the two integers: fold it for boundary witnesses
-        nums = (-5, -1, 0, 1, 7)
-        pers = (-3, -1, 0, 1, 2, 51) if argc == "2" else (None,)
+    cci, vfd = repo.need_method("ctrl_if", "CTRLInterface", "verify_cmd")
+    def verify(args):
+        try:
+            ev_ = Ev(repo, cci.mod, self_cls=cci)
+            return ev_.call_func(vfd, cci.mod, ev_._bindargs(vfd, ["<self>"] + list(args), {}))
+        except (Unknown, Raised) as ex:
+            raise AnalysisError("verify_cmd does not fold: %s" % ex)
+    nums = (-5, -1, 0, 1, 7)
+    n = 0
+    for argc in (1, 2):
+        pers = (-3, -1, 0, 1, 2, 51) if argc == 2 else (None,)
         for num in nums:
             for per in pers:
                 req = ["FAKE_DROP", str(num)] + ([str(per)] if per is not None else [])
-                env = {REQ: req, "self.burst_drop_amount": "<old amount>", "self.burst_drop_period": "<old period>"}
+                env = {REQ: list(req), "self.burst_drop_amount": "<old amount>", "self.burst_drop_period": "<old period>"}
                 e = Ev(repo, mod, env=env, self_cls=ci0)
+                e.hooks = {"self.ctrl_if.verify_cmd": verify}
                 try:
-                    r = e.run_block(br.body)
+                    r = e.run_block(fd.body)
                 except (Unknown, Raised) as ex:
-                    raise AnalysisError("FAKE_DROP/%s branch does not fold for %s: %s" % (argc, req, ex))
-                ret = r[1] if isinstance(r, tuple) else "<falls through>"
+                    raise AnalysisError("ctrl_cmd_handler does not fold for %s: %s" % (req, ex))
+                ret = r[1] if isinstance(r, tuple) else None
                 state = (e.env.get("self.burst_drop_amount"), e.env.get("self.burst_drop_period"))
                 valid = num >= 0 and (per is None or per > 0)
                 if valid:
                     want = (0, (num, 1 if per is None else per))
                 else:
                     want = (-1, ("<old amount>", "<old period>"))
+                n += 1
                 L.require("C18.R2", F, fn, "FAKE_DROP %s: status and drop state afterwards (invalid arguments: -1 and state unchanged)" % " ".join(req[1:]),
-                          want, (ret, state), line=br.lineno)
-    # no partial update on a rejected command: every store is dominated by all validations (decided by the fold
-    # above for the witnesses; structurally: no store precedes a rejecting return)
-    cfg = CFG(fd)
-    for argc, br in sorted(found.items()):
-        stores = [n for n in ast.walk(br) if isinstance(n, (ast.Assign, ast.AugAssign)) and
-                  any(isinstance(t, ast.Attribute) and t.attr in ("burst_drop_amount", "burst_drop_period")
-                      for t in ([n.target] if isinstance(n, ast.AugAssign) else n.targets))]
-        rej = [n for n in ast.walk(br) if isinstance(n, ast.Return) and canon(n.value) != "0"]
-        for st_ in stores:
-            for r_ in rej:
-                L.ob("C18.R2", F, fn, "FAKE_DROP/%s: no drop-state store can precede a rejecting return" % argc,
-                     "store not followed by a rejection", "",
-                     not cfg.reachable(cfg.node_of(st_), cfg.node_of(r_)), st_.lineno)
+                          want, (ret, state), line=fd.lineno)
+    L.floor("C18.R2", "FAKE_DROP witness commands folded through the handler", n, 35)
 
 
 def r3_suppression(L, repo):
